@@ -52,7 +52,10 @@ THEOREMS = ['C05_pot_transform_compl_untouched', 'C05_pot_transform_den',
             'C05_located_enumerated', 'C05_located_unique',
             'C05_descents_distinct', 'C05_by_universe_lists',
             'C05_inline_cells_den', 'C05_trcl_phase_den',
-            'C05_explicit_transformation_not_empty']
+            'C05_explicit_transformation_not_empty',
+            'C05_inline_cells_den_conv', 'C05_pipeline_located',
+            'C05_precedence_from_tokens', 'C05_precedence_located',
+            'C05_trcl_phase_with_cellrefs_refuted']
 
 
 def tie_case_summary(case):
@@ -145,6 +148,28 @@ def starred_fill_witnesses():
     return out
 
 
+def null_fill_witnesses():
+    '''Minimal decks of the seeded regression: a container with a TRCL and an
+    explicit null fill transformation (plain and starred), level 1 and nested:
+    the fill transformation places the universe, the TRCL does not.'''
+    import copy
+    out = []
+    for name, base, opts in negative_universe_witnesses()[:2]:
+        for star in (False, True):
+            deck = copy.deepcopy(base)
+            deck['title'] = 'c05 TRCL + null fill transformation'
+            for c in deck['cells']:
+                c['u'] = abs(c['u'])
+            holder = [c for c in deck['cells'] if c['fill'] is not None][-1]
+            holder['trcl'] = deckmod.make_tr([0.75, 0.0, 0.25])
+            tr = deckmod.make_tr([0.0, 0.0, 0.0])
+            tr['star'] = star
+            holder['fill']['tr'] = tr
+            out.append((f'TRCL + {"*" if star else ""}fill=n (0 0 0), '
+                        f'{name[-7:]}', deck, deckmod.render(deck), opts))
+    return out
+
+
 def text_failures(deck, text, options):
     import impl
     conv = impl.convert(text, list(options))
@@ -171,6 +196,93 @@ def negative_universe_failures(deck, options):
     pts += [[0.5, 0.2, 0.1], [0.3, 0.1, 0.0], [-0.4, 0.3, 0.2]]
     _, _, failures = c05_sweep.compare(deck, t4, pts)
     return failures
+
+
+# lines of the anchored functions that no tied call can reach (by source text)
+TIE_UNREACHABLE = [
+    # pot_transform: surfaces that convert to several T4 surfaces (macrobodies,
+    # one-sheet cones): the tie uses planes; covered by the sweep / C03
+    "surf.idorigin = tuple(list(surf.idorigin) + ['aux surf'])",
+    # parse_fill_kw / to_fillid / parse_keywords: lattice arrays and LAT (C06),
+    # LIKE n BUT keywords (C09 / C15)
+    'str_bounds = [first_arg]', "while kw_list and ':' in kw_list[-1]:",
+    'str_bounds.append(kw_list.pop())', 'bounds = parse_ranges(str_bounds)',
+    'fillid_u, consumed = expand_data_card(list(reversed(kw_list)),',
+    'expected=bounds.size(),', "dtype='int')", 'except ValueError:',
+    "msg = (f'expected {bounds.size()} universe specifications '",
+    "'after FILL keyword')", 'raise ParseMCNPCellError(msg) from None',
+    'del kw_list[-consumed:]', 'fillid_bounds = bounds',
+    "keywords['lattice'] = self.parse_lat_kw(kw_list)",
+    "keywords['density'] = kw_list.pop()",
+    "keywords['material'] = kw_list.pop()",
+    'f_univs_arg = kws', 'if isinstance(f_univs_arg, int):',
+    'if lat_opt is None:', "msg = 'no --lattice option provided'",
+    'raise MissingLatticeOptError(msg) from None',
+    "kws['f_bounds'] = lat_opt",
+    "kws['f_univs'] = [f_univs_arg] * lat_opt.size()",
+    "return LatticeSpec(kws['f_bounds'], kws['f_univs'])",
+    # parse_one_cell_worker: importance cards, LIKE BUT material / density
+    "kws['importance'] = self.importances[rank]", 'except IndexError:',
+    "raise ParseMCNPCellError('Cannot find importance') from None",
+    "material_id = kws['material']",
+    "density = normalize_float(kws['density'])", 'density = None',
+    "elif 'rho' in elt:", "elif 'mat' in elt:", 'try:',
+    # CellMCNP.copy: geometries always have .copy here
+    'geom_copy = self.geometry',
+]
+
+
+def start_coverage():
+    import c02_cov
+    from t4_geom_convert.Kernel.Volume.CellConversion import CellConversion
+    from t4_geom_convert.Kernel.Volume.ByUniverse import by_universe
+    from t4_geom_convert.Kernel.Volume.CellMCNP import CellMCNP
+    from t4_geom_convert.Kernel.Volume import CellInlining as inl
+    from t4_geom_convert.Kernel.FileHandlers.Parser.ParseMCNPCell import \
+        ParseMCNPCell
+    funcs = [CellConversion.pot_fill, CellConversion.pot_transform,
+             CellConversion.cell_transform, CellConversion.apply_trcl,
+             by_universe, CellMCNP.copy, inl.find_occurrences,
+             inl.extract_subcells, inl.compute_inlining_scores,
+             inl.geometry_size, inl.inline_cells, inl.inline_cells_worker,
+             ParseMCNPCell.parse_fill_kw, ParseMCNPCell.parse_trcl_kw,
+             ParseMCNPCell.parse_keywords, ParseMCNPCell.parse_one_cell_worker,
+             ParseMCNPCell.to_fillid]
+    return c02_cov.LineCov(funcs)
+
+
+class traced:
+    '''Tracing only around the calls into the implementation.  (Python switches
+    tracing off by itself when the trace function raises, which happens when a
+    cyclic case runs into the recursion limit - hence set again every time.)'''
+
+    def __init__(self, cov):
+        self.cov = cov
+
+    def __enter__(self):
+        import sys
+        sys.settrace(self.cov._global)
+
+    def __exit__(self, *exc):
+        import sys
+        sys.settrace(None)
+        return False
+
+
+def finish_coverage(res, cov):
+    total, missing = cov.missing(TIE_UNREACHABLE)
+    res.obligation('coverage: the tied calls execute every line of the '
+                   f'anchored functions they can reach ({total} lines of '
+                   f'{len(cov.codes)} code objects)', not missing,
+                   f'never executed: {missing[:6]}')
+    res.extra['anchored_lines'] = total
+    if missing:
+        res.violation('harness-error',
+                      'the tie generators no longer reach these lines of the '
+                      f'anchored code: {missing[:8]}',
+                      {'theorem_or_correspondence': 'coverage',
+                       'input': {'lines': [list(m) for m in missing[:20]]}},
+                      found_input=False)
 
 
 def sweep(res, rng, n_decks, n_points, tag):
@@ -293,13 +405,38 @@ def run(res, tier, seed, proofs_ok):
                  'observed': [f['why'] for f in fails[:5]]},
                 found_input=True)
 
-    # 2. tie
+    for name, deck, text, options in null_fill_witnesses():
+        fails = text_failures(deck, text, options)
+        res.count('corpus:trcl+null_fill_transformation')
+        res.seen((text, tuple(options)), nontrivial=True)
+        if fails:
+            res.violation(
+                'impl-violation',
+                f'{name}: {len(fails)} sample points misplaced: '
+                f'{fails[0]["why"]}',
+                {'input': {'deck': text, 'options': options,
+                           'abstract': deck, 'point': fails[0]['point']},
+                 'expected': 'mcnpref.Reference.locate (an explicit fill '
+                             'transformation wins over the TRCL)',
+                 'observed': [f['why'] for f in fails[:5]]},
+                found_input=True)
+
+    # 2. tie (under a line-coverage tracer restricted to the anchored functions
+    #    that the ties call: every line of them that a tied call can reach
+    #    must be executed)
+    cov = start_coverage()
     cases, meta = [], []
-    for i in range(n_tie):
-        case = c05_tie.gen_case(rng, malformed=(i % 4 == 3))
+    corpus = c05_tie.corpus_cases()
+    for i in range(-len(corpus), n_tie):
+        if i < 0:
+            case = corpus[i + len(corpus)]
+            res.count('tie:corpus')
+        else:
+            case = c05_tie.gen_case(rng, malformed=(i % 4 == 3))
         runner = c05_tie.Runner(case)
         try:
-            outcome = runner.run()
+            with traced(cov):
+                outcome = runner.run()
         except Exception as exc:          # anything but KeyError/Recursion
             res.violation(
                 'impl-violation' if case['fault'] is None else 'correspondence',
@@ -360,7 +497,8 @@ def run(res, tier, seed, proofs_ok):
     for i in range(400 if tier == 'quick' else 4000):
         case = c05_kw.gen_case(rng)
         try:
-            outcome = c05_kw.run_impl(case)
+            with traced(cov):
+                outcome = c05_kw.run_impl(case)
         except Exception as exc:
             res.violation(
                 'impl-violation',
@@ -413,6 +551,51 @@ def run(res, tier, seed, proofs_ok):
                                     'error': err}, found_input=False)
     tie_broken = tie_broken or bool(kbad or kerrs)
 
+    # 2c. whole cell cards: parse_one_cell_worker -> universe, fillid, filltr,
+    #     trcl of the CellMCNP (Model.cell_of_keywords)
+    ck_cases, ck_meta = [], []
+    for i in range(300 if tier == 'quick' else 3000):
+        case = c05_kw.gen_cell_case(rng)
+        try:
+            with traced(cov):
+                outcome = c05_kw.run_cell_impl(case)
+        except Exception as exc:
+            res.violation(
+                'impl-violation',
+                f'cell options {case["option"]!r}: {type(exc).__name__}: {exc}',
+                {'input': {'cell_kw_case': case},
+                 'theorem_or_correspondence': 'tie:cell_kw'},
+                found_input=True)
+            continue
+        ck_cases.append(c05_kw.coq_cell_case(case, outcome))
+        ck_meta.append((case, outcome))
+        res.seen(ck_cases[-1], nontrivial=case['fill'] is not None
+                 or case['trcl'] is not None)
+        res.count('cellkw:fill=' + (case['fill']['kind'] if case['fill']
+                                    else 'absent')
+                  + ',trcl=' + ('present' if case['trcl'] else 'absent'))
+    cbad, cerrs = common.run_case_files('c05_ck', HEADER, 'ckcase',
+                                        'check_cell_kw', ck_cases, chunk=150)
+    res.obligation(f'tie:cell_kw ({len(ck_cases)} cell option strings: model '
+                   'cell_of_keywords = universe / fillid / filltr / trcl of '
+                   'the CellMCNP)', not cbad and not cerrs,
+                   f'{len(cbad)} disagreements {cerrs[:1]}')
+    for idx in cbad[:6]:
+        case, outcome = ck_meta[idx]
+        res.violation(
+            'correspondence',
+            f'cell options {case["option"]!r} give {outcome!r}; the model '
+            'differs (or a 12-entry transformation is not the written one)',
+            {'input': {'cell_kw_case': case}, 'observed': outcome,
+             'theorem_or_correspondence': 'tie:cell_kw'}, found_input=False)
+    for err in cerrs[:2]:
+        res.violation('correspondence', 'generated case file failed: '
+                      + err[:300], {'theorem_or_correspondence': 'tie:cell_kw',
+                                    'error': err}, found_input=False)
+    tie_broken = tie_broken or bool(cbad or cerrs)
+
+    finish_coverage(res, cov)
+
     # 3. sweep with the independent oracle (more of it when the tie broke)
     bad_decks = sweep(res, rng, n_decks, n_points, 'sweep')
     if tie_broken and bad_decks == 0:
@@ -463,6 +646,18 @@ def replay(path):
                 ref = mcnpref.Reference(deck)
                 print('reference chain at the recorded point:',
                       ref.locate(np.array(inp['point'], float)))
+    elif 'cell_kw_case' in inp:
+        case = inp['cell_kw_case']
+        case['table'] = {int(k): v for k, v in case['table'].items()}
+        for sub in (case['fill'], case['trcl']):
+            if sub is not None:
+                sub['table'] = case['table']
+        outcome = c05_kw.run_cell_impl(case)
+        print('cell options:', case['option'], '| TR cards', case['table'])
+        print('implementation (universe, fillid, filltr, trcl):', outcome)
+        ok, _ = common.coq_eval(HEADER, 'check_cell_kw '
+                                + c05_kw.coq_cell_case(case, outcome))
+        print('model agrees:', ok)
     elif 'kw_case' in inp:
         case = inp['kw_case']
         case['table'] = {int(k): v for k, v in case['table'].items()}
